@@ -101,7 +101,7 @@ def check_query(ref, Sid, s, forced, q, route):
     ov = ref.overlay(d, q)
     if "?" in y.string:
         got = ("refused",)
-        if y.type != t or list(y.fields.items()) != list(d.items()) or y.string != s + "?" + q:
+        if y.type != t or list(y.fields.items()) != list(d.items()) or not y.string.startswith(s + "?") or ref.qdict(y.string[len(s) + 1:]) != ref.qdict(q):
             out.append(dict(signature="query/refused-but-changed", observed=[y.uri, list(y.fields.items())], expected=[t + ":" + s + "?" + q, list(d.items())]))
     elif not y:
         got = ("untyped",)
@@ -153,6 +153,11 @@ def cases(ref, k):
                     continue
                 q = "&".join(f"{kk}={vv}" for kk, vv in combo)
                 yield ("q", s, forced, q)
+                if r == 2:
+                    yield ("q", s, forced, "?".join(f"{kk}={vv}" for kk, vv in combo))     # '?' may separate pairs
+                elif r == 1:
+                    yield ("q", s, forced, "?" + q)                                        # documented form: '?key=value'
+                    yield ("q", s, forced, q + "&")
                 if not any(v.startswith("~") or "%" in v for _, v in combo):
                     yield ("kw", s, forced, dict(combo))
         # None overlays
